@@ -122,13 +122,9 @@ pub fn exec(op: &str, a: &[Vec<u8>]) -> Out {
         "sm.var_base" => {
             let s = need!(sc_any(&a[0]));
             let p = need!(pt(&a[1]));
-            let mut t = p;
-            t *= &s;
-            let mut u = p;
-            u *= s;
             let mut o = vec![];
-            for r in [&p * &s, &s * &p, p * s, s * p, t, u] {
-                o.extend_from_slice(&enc(&r));
+            for form in 0..10usize {
+                o.extend_from_slice(&enc(&crate::mul_form!(p, s, form)));
             }
             Out::Ok(o)
         }
